@@ -81,7 +81,7 @@ CHECKS = {
  },
  "C06": {
   "text": "Liveness is model-checked on GBN.tla (LiveSpec: weak/strong fairness of loops, application and resend timer, finitely many faults): every message is eventually delivered for good and the windows drain; the timed model KeepAlive.tla checks NoSilentStall for resend timeouts below and above the peer's keepalive cadence; real connections run through seeded random fault prefixes followed by a reliable link, and through tail-loss scenarios with the peer's keepalive running (static timeouts 1-8 s, adaptive timeouts over 20-800 ms links); a timed observer specification checks bounded delivery, no unprovoked closure (none at all with keepalive off) and quiescence on every trace.",
-  "note": "trace bounds scale with the resend timeout in force at the end of the fault period (measured, since the adaptive timeout stays boosted): delivery bound 25 x base + 15 s, quiet window 12 x base; liveness model-checked for small windows/message counts; with keepalive on a closure during the fault prefix counts as visible failure",
+  "note": "trace bounds scale with the resend timeout in force at the end of the fault period (measured, since the adaptive timeout stays boosted): delivery bound 25 x base + 15 s, quiet window 12 x base; liveness model-checked for small windows/message counts and unidirectional traffic (bounded channels make the bidirectional model deadlock artificially; bidirectional progress is covered by the validated traces); with keepalive on a closure during the fault prefix counts as visible failure",
   "technique": "TLA+ liveness and timed model checking (TLC) + trace validation by a timed observer specification",
  },
  "C05": {
